@@ -256,6 +256,8 @@ func c05Alphabet() []c05Cmd {
 		{kind: "add", svc: "sa", host: "foo.com", path: "/", dst: h1, w: 0.5},
 		{kind: "add", svc: "sa", host: "foo.com", path: "/", dst: h1, w: -1}, // negative = no fixed weight: same target as the first command
 		{kind: "add", svc: "sc", host: "foo.com", path: "/x", dst: h2, w: 10}, // weights above 1 are legal (normalised); 10 has trailing zeros in every rendering
+		{kind: "add", svc: "sa", host: "foo.com", path: "/", dst: "http://10.0.0.1:80"}, // differs from h1 only by the trailing slash: another target
+		{kind: "del", form: "svc-src-dst", svc: "sa", host: "foo.com", path: "/", dst: "http://10.0.0.1:80"},
 		{kind: "del", form: "svc", svc: "sa"},
 		{kind: "del", form: "svc-src", svc: "sa", host: "Foo.com", path: "/"},
 		{kind: "del", form: "svc-src-dst", svc: "sa", host: "foo.com", path: "/", dst: h1},
@@ -296,7 +298,7 @@ func c05Script(alpha []c05Cmd, script []int) string {
 
 func TestVerifC05Commands(t *testing.T) {
 	L := ev.Begin("C05", "c05-commands", "model_checking",
-		"explicit-state BFS over route command scripts: 19 commands (add incl. host-case / weight / tags / opts variants, the 5 del forms, the 3 weight forms); state = canonical reference table; every (state,command) transition rebuilds the real table with NewTable(shortest script + command) and compares hosts, routes, ordered targets (service, url, fixed weight, tags, opts) with the reference interpreter; every state round-trips through Parse(t.String()). non-trivial = transition that changes the state")
+		"explicit-state BFS over route command scripts: 21 commands (add incl. host-case / weight / tags / opts / near-miss destination variants, the 5 del forms, the 3 weight forms); state = canonical reference table; every (state,command) transition rebuilds the real table with NewTable(shortest script + command) and compares hosts, routes, ordered targets (service, url, fixed weight, tags, opts) with the reference interpreter; every state round-trips through Parse(t.String()). non-trivial = transition that changes the state")
 	alpha := c05Alphabet()
 	maxDepth := 5
 	if ev.Thorough() {
